@@ -288,6 +288,8 @@ type h1Env struct {
 
 var h1Routes = []string{"direct", "upstream", "mitm", "handler"}
 
+const h1HeaderLimit = 300 * time.Millisecond
+
 func newH1Env(seed int64) *h1Env {
 	ca, _ := harnessCAs()
 	he := &h1Env{routes: map[string]*fwd{}, hop: &scriptHop{scripts: map[string]*script{}}, log: &hitLog{}, seed: seed}
@@ -297,7 +299,8 @@ func newH1Env(seed int64) *h1Env {
 	a := startOrigin("A", he.log, nil, he.hop.respond)
 	he.peers = []*peer{o, ot, a}
 	for _, r := range h1Routes {
-		fc := fwdCfg{Name: "fwd", Localhost: "allow"}
+		// a short read-header limit: it must only ever apply to request heads
+		fc := fwdCfg{Name: "fwd", Localhost: "allow", ReadHeaderTimeout: h1HeaderLimit}
 		switch r {
 		case "upstream":
 			fc.Upstream = "http://" + addrA
@@ -673,6 +676,7 @@ type h1Exchange struct {
 		Body string `json:"body"`
 		Sz   int    `json:"sz"`
 		Ae   string `json:"ae"`
+		Slow bool   `json:"slow"`
 	} `json:"req"`
 	Up  upShape `json:"up"`
 	Exp struct {
@@ -791,10 +795,17 @@ func (he *h1Env) sequence(si int, seq []h1Exchange) map[string]any {
 		if sc.gated {
 			cl.mark.arm([]byte(evtMarker), sc.gate)
 		}
-		// write the request in two segments to exercise the reader
+		// write the request in two segments to exercise the reader; a slow sender pauses in the
+		// middle of its body for longer than the read-header limit
 		b := rb.Bytes()
 		cut := len(b) / 2
+		if ex.Req.Slow {
+			cut = len(b) - len(reqBody)/2
+		}
 		if err := cl.raw.send(b[:cut]); err == nil {
+			if ex.Req.Slow {
+				time.Sleep(h1HeaderLimit * 3 / 2)
+			}
 			err = cl.raw.send(b[cut:])
 		}
 		got, err := cl.raw.recv(ex.Req.M, 10*time.Second)
